@@ -9,38 +9,38 @@ Open Scope N_scope.
 Definition bad_res (silent : bool) (n : Z) : result dres := if silent then Ok (None, n, None) else Exc EAssertion.
 
 Definition decode_fields (G : group_table) (beginstring : str) (silent : bool) (rawlen : Z) (valid_idx : nat)
-  (encoded : str) (fields : list str) : result dres :=
+  (has_next : bool) (frame_len : Z) (encoded : str) (fields : list str) : result dres :=
   match fields with
   | f0 :: f1 :: _ :: _ =>
       match split1 61 f0 with
       | (_, None) => Exc EValue
       | (_, Some v0) =>
-          if negb (str_eqb v0 beginstring) then bad_res silent rawlen
+          if negb (str_eqb v0 beginstring) then bad_res silent frame_len
           else
             match split1 61 f1 with
-            | (_, None) => bad_res silent rawlen
+            | (_, None) => bad_res silent frame_len
             | (tag1, Some v1) =>
-                if negb (str_eqb tag1 T9) then bad_res silent rawlen
+                if negb (str_eqb tag1 T9) then bad_res silent frame_len
                 else
                   match py_int v1 with
-                  | None => Exc EValue
+                  | None => bad_res silent frame_len
                   | Some bl =>
+                     if (bl <? 0)%Z then bad_res silent frame_len else
                       let msg_length := (zlen f0 + zlen f1 + 9 + bl)%Z in
-                      if (rawlen <? msg_length)%Z then bad_res silent (Z.of_nat valid_idx)
+                      if (rawlen - Z.of_nat valid_idx <? msg_length)%Z then bad_res silent (Z.of_nat valid_idx)
                       else
-                        let parsed := (Z.of_nat valid_idx + msg_length)%Z in
                         let ck_expect := ((sum_codes (join SOHs (removelast fields)) + 1) mod 256) in
                         match fields_loop G ck_expect (mkD [] [] UNKNOWN false) fields with
                         | FExc e => Exc e
-                        | FReturnBad => bad_res silent rawlen
+                        | FReturnBad => bad_res silent frame_len
                         | FCont st =>
-                            if d_ck st then Ok (Some (mkMsg (d_type st) (d_root st)), parsed, Some encoded)
-                            else bad_res silent parsed
+                            if d_ck st then Ok (Some (mkMsg (d_type st) (d_root st)), frame_len, Some encoded)
+                            else bad_res silent frame_len
                         end
                   end
             end
       end
-  | _ => bad_res silent (Z.of_nat valid_idx)
+  | _ => if has_next then bad_res silent frame_len else bad_res silent (Z.of_nat valid_idx)
   end.
 
 Definition fields_of (encoded : str) : list str :=
@@ -49,15 +49,20 @@ Definition fields_of (encoded : str) : list str :=
   | _ => split_on 1 encoded
   end.
 
+(* the provisional end of the frame candidate: the next frame-start marker, or the end of the buffer *)
+Definition next0 (msg : str) : nat :=
+  match find_sub MARK (skipn 5 msg) with Some k => (k + 5)%nat | None => length msg end.
+
 Lemma decode_eq : forall G bs raw silent,
   decode G bs raw silent =
   match find_sub MARK raw with
-  | None => bad_res silent (zlen raw)
+  | None => bad_res silent (zlen raw - Z.of_nat (marker_tail raw))%Z
   | Some i =>
       let msg := skipn i raw in
-      let next_msg := match find_sub MARK (skipn 5 msg) with Some k => (k + 5)%nat | None => length msg end in
+      let has_next := match find_sub MARK (skipn 5 msg) with Some _ => true | None => false end in
+      let next_msg := cut_at_checksum msg (next0 msg) in
       let encoded := firstn next_msg msg in
-      decode_fields G bs silent (zlen raw) i encoded (fields_of encoded)
+      decode_fields G bs silent (zlen raw) i has_next (Z.of_nat i + Z.of_nat next_msg)%Z encoded (fields_of encoded)
   end.
 Proof. reflexivity. Qed.
 
@@ -65,6 +70,9 @@ Proof. reflexivity. Qed.
 
 Lemma firstn_exact : forall {A} (a b : list A), firstn (length a) (a ++ b) = a.
 Proof. induction a; intros; cbn; [reflexivity | rewrite IHa; reflexivity]. Qed.
+
+Lemma skipn_exact : forall {A} (a b : list A), skipn (length a) (a ++ b) = b.
+Proof. induction a; intros; cbn; [reflexivity | apply IHa]. Qed.
 
 Lemma skipn_app_le : forall {A} n (a b : list A), (n <= length a)%nat -> skipn n (a ++ b) = skipn n a ++ b.
 Proof.
@@ -78,37 +86,124 @@ Proof. apply cfreeb_spec. reflexivity. Qed.
 Lemma MARK_nonempty : MARK <> [].
 Proof. discriminate. Qed.
 
-(* nothing after the frame start looks like a frame start: the whole buffer is one candidate frame *)
-Lemma decode_nocut : forall G bs raw silent,
-  prefixb MARK raw = true -> find_sub MARK (skipn 5 raw) = None ->
-  decode G bs raw silent = decode_fields G bs silent (zlen raw) 0 raw (fields_of raw).
+Lemma MARK_no_border : ~ In 56 [61; 70; 73; 88; 46].
+Proof. intro I. cbn in I. repeat (destruct I as [I|I]; [discriminate|]). exact I. Qed.
+
+(* marker-free junk cannot complete a marker with the first bytes of what follows *)
+Lemma find_mark_junk : forall J X, find_sub MARK J = None -> prefixb MARK X = true ->
+  find_sub MARK (J ++ X) = Some (length J).
 Proof.
-  intros G bs raw silent Hp Hn. rewrite decode_eq, (find_sub_head _ _ Hp).
-  cbv zeta. change (skipn 0 raw) with raw. rewrite Hn, firstn_all. reflexivity.
+  intros J X HJ HX. apply prefixb_spec in HX as [r Er]. subst X.
+  pose proof (find_sub_junk_gen 56 [61; 70; 73; 88; 46] J ([61; 70; 73; 88; 46] ++ r) MARK_no_border HJ) as H.
+  assert (Hh : find_sub (56 :: [61; 70; 73; 88; 46]) (56 :: [61; 70; 73; 88; 46] ++ r) = Some 0%nat)
+    by (apply find_sub_head; apply (prefixb_app MARK r)).
+  rewrite Hh in H. cbn [option_map] in H. rewrite Nat.add_0_r in H. exact H.
 Qed.
 
-(* a frame F (ending in SOH) followed by nothing or by the start of the next frame is cut at |F| *)
-Lemma decode_cut : forall G bs F' P silent,
-  prefixb MARK (F' ++ [1]) = true -> (5 <= length F')%nat -> find_sub MARK (skipn 5 (F' ++ [1])) = None ->
-  P = [] \/ prefixb MARK P = true ->
-  decode G bs ((F' ++ [1]) ++ P) silent =
-  decode_fields G bs silent (zlen ((F' ++ [1]) ++ P)) 0 (F' ++ [1]) (fields_of (F' ++ [1])).
+(* what the framing code needs of a frame F: it starts with the marker, has no second marker, and its
+   first "<SOH>10=" is the CheckSum field, which ends the frame *)
+Definition CK3 : str := T10 ++ [61].
+Definition frame_shape (F : str) : Prop :=
+  prefixb MARK F = true /\ find_sub MARK (skipn 5 F) = None
+  /\ exists A t, F = A ++ CKSEP ++ t ++ [1] /\ cfree 1 t /\ find_sub CKSEP F = Some (length A).
+
+Lemma find_sub_some_bound : forall p a k, find_sub p a = Some k -> (k + length p <= length a)%nat.
 Proof.
-  intros G bs F' P silent Hp Hl Hn HP.
-  rewrite decode_eq, (find_sub_head _ _ (prefixb_app_r _ _ P Hp)).
-  cbv zeta. change (skipn 0 ((F' ++ [1]) ++ P)) with ((F' ++ [1]) ++ P).
-  assert (Hcut : match find_sub MARK (skipn 5 ((F' ++ [1]) ++ P)) with
-                 | Some k => (k + 5)%nat | None => length ((F' ++ [1]) ++ P) end = length (F' ++ [1])).
-  { rewrite (skipn_app_le 5 F' [1] Hl) in Hn.
-    rewrite <- app_assoc. rewrite (skipn_app_le 5 F' ([1] ++ P) Hl). cbn [app].
-    pose proof (find_sub_none_prefix _ _ _ Hn) as Hn'.
-    rewrite (find_sub_sep 1 MARK _ P MARK_soh_free MARK_nonempty Hn').
-    rewrite !app_length, skipn_length. cbn [length].
-    destruct HP as [HP|HP].
-    - subst P. cbn. lia.
-    - rewrite (find_sub_head _ _ HP). cbn [option_map]. lia. }
-  rewrite Hcut, firstn_exact. reflexivity.
+  intros p a. induction a as [|x a IH]; intros k H.
+  - rewrite find_sub_nil in H. destruct (prefixb p []) eqn:E; [|discriminate]. injection H as H. subst k.
+    apply (prefixb_len _ _ E).
+  - rewrite find_sub_cons in H. destruct (prefixb p (x :: a)) eqn:E.
+    + injection H as H. subst k. apply (prefixb_len _ _ E).
+    + destruct (find_sub p a) as [k'|] eqn:F; [|discriminate]. injection H as H. subst k.
+      specialize (IH k' eq_refl). cbn [length]. lia.
 Qed.
+
+Lemma frame_shape_len : forall F, frame_shape F -> (6 <= length F)%nat.
+Proof. intros F [H _]. apply (prefixb_len _ _ H). Qed.
+
+(* the provisional end lies at or behind the end of the frame, whatever follows it *)
+Lemma next0_ge : forall F R, frame_shape F -> (length F <= next0 (F ++ R))%nat.
+Proof.
+  intros F R HS. pose proof (frame_shape_len F HS) as HL. destruct HS as [_ [Hn [A [t [EF _]]]]].
+  set (F' := A ++ CKSEP ++ t) in *. assert (EF' : F = F' ++ [1]) by (unfold F'; rewrite EF, <- !app_assoc; reflexivity).
+  assert (H5 : (5 <= length F')%nat) by (rewrite EF', app_length in HL; cbn in HL; lia).
+  unfold next0. rewrite EF' in *. rewrite (skipn_app_le 5 F' [1] H5) in Hn.
+  rewrite <- app_assoc, (skipn_app_le 5 F' ([1] ++ R) H5). cbn [app].
+  rewrite (find_sub_sep 1 MARK _ R MARK_soh_free MARK_nonempty (find_sub_none_prefix _ _ _ Hn)).
+  rewrite !app_length, skipn_length. cbn [length].
+  destruct (find_sub MARK R); cbn [option_map]; lia.
+Qed.
+
+Lemma ck_assoc : forall A t X, (A ++ CKSEP ++ t ++ [1]) ++ X = (A ++ [1]) ++ (CK3 ++ t) ++ 1 :: X.
+Proof.
+  intros. unfold CKSEP, CK3, T10. cbn [app]. rewrite <- !app_assoc. cbn [app]. rewrite <- !app_assoc. reflexivity.
+Qed.
+
+(* ... and the CheckSum cut brings it back to exactly the end of the frame *)
+Lemma cut_full : forall F R n, frame_shape F -> (length F <= n)%nat -> cut_at_checksum (F ++ R) n = length F.
+Proof.
+  intros F R n [_ [_ [A [t [EF [Ht Hck]]]]]] Hn. unfold cut_at_checksum.
+  rewrite firstn_app, (firstn_all2 F) by lia. set (R2 := firstn (n - length F) R).
+  rewrite (find_sub_some_ext CKSEP F R2 _ Hck).
+  assert (E : F ++ R2 = (A ++ [1]) ++ (CK3 ++ t) ++ 1 :: R2) by (rewrite EF; apply ck_assoc).
+  rewrite E. replace (length A + 1)%nat with (length (A ++ [1])) by (rewrite app_length; cbn; lia).
+  rewrite skipn_exact.
+  assert (Hc : cfree 1 (CK3 ++ t)) by (apply cfree_app; split; [apply cfreeb_spec; reflexivity | assumption]).
+  unfold SOHs. rewrite (find_sub_single 1 (CK3 ++ t) R2 Hc).
+  rewrite EF, !app_length. cbn [length CKSEP CK3 T10 app]. lia.
+Qed.
+
+(* junk ++ frame ++ anything: the candidate is exactly the frame *)
+Lemma decode_frame_gen : forall G bs J F R silent,
+  find_sub MARK J = None -> frame_shape F ->
+  exists hn, decode G bs (J ++ F ++ R) silent
+    = decode_fields G bs silent (zlen (J ++ F ++ R)) (length J) hn (zlen J + zlen F)%Z F (fields_of F).
+Proof.
+  intros G bs J F R silent HJ HS.
+  rewrite decode_eq, (find_mark_junk J (F ++ R) HJ (prefixb_app_r _ _ R (proj1 HS))).
+  cbv zeta. rewrite skipn_exact, (cut_full F R _ HS (next0_ge F R HS)), firstn_exact.
+  eexists. reflexivity.
+Qed.
+
+(* junk ++ proper prefix (>= 6 bytes) of a frame: the candidate is the whole prefix *)
+Lemma decode_prefix_gen : forall G bs J F P Q silent,
+  find_sub MARK J = None -> frame_shape F -> F = P ++ Q -> Q <> [] -> (6 <= length P)%nat ->
+  decode G bs (J ++ P) silent
+  = decode_fields G bs silent (zlen (J ++ P)) (length J) false (zlen J + zlen P)%Z P (fields_of P).
+Proof.
+  intros G bs J F P Q silent HJ [Hm [Hn [A [t [EF [Ht Hck]]]]]] EPQ HQ HP.
+  assert (HmP : prefixb MARK P = true) by (rewrite EPQ in Hm; apply (prefixb_app_short _ _ _ Hm); exact HP).
+  assert (HnP : find_sub MARK (skipn 5 P) = None).
+  { rewrite EPQ, (skipn_app_le 5 P Q) in Hn by lia. apply (find_sub_none_prefix _ _ _ Hn). }
+  rewrite decode_eq, (find_mark_junk J P HJ HmP). cbv zeta. rewrite skipn_exact.
+  assert (Hnext : next0 P = length P) by (unfold next0; rewrite HnP; reflexivity).
+  assert (Hcut : cut_at_checksum P (length P) = length P).
+  { unfold cut_at_checksum. rewrite firstn_all.
+    destruct (find_sub CKSEP P) as [ci|] eqn:Eci; [|reflexivity].
+    pose proof (find_sub_some_ext CKSEP P Q ci Eci) as Hext. rewrite <- EPQ, Hck in Hext. injection Hext as Hext. subst ci.
+    pose proof (find_sub_some_bound _ _ _ Eci) as Hb. cbn [length CKSEP T10 app] in Hb.
+    assert (E : P ++ Q = (A ++ [1]) ++ (CK3 ++ t) ++ [1]).
+    { rewrite <- EPQ, EF. rewrite <- (app_nil_r (A ++ CKSEP ++ t ++ [1])). apply ck_assoc. }
+    assert (Hl : exists l, P = (A ++ [1]) ++ l /\ (CK3 ++ t) ++ [1] = l ++ Q).
+    { apply app_eq_app in E as [l [[E1 E2]|[E1 E2]]]; [exists l; split; assumption|].
+      assert (l = []).
+      { apply (f_equal (@length N)) in E1. rewrite !app_length in E1. cbn [length] in E1.
+        destruct l; [reflexivity | cbn [length] in E1; lia]. }
+      subst l. rewrite app_nil_r in E1. exists []. rewrite app_nil_r. split; [symmetry; assumption | cbn [app] in *; congruence]. }
+    destruct Hl as [l [E1 E2]].
+    destruct (exists_last HQ) as [Q' [q EQ]]. rewrite EQ, app_assoc in E2. apply app_inj_tail in E2 as [E2 _].
+    assert (Hl : cfree 1 l).
+    { assert (Hc : cfree 1 (CK3 ++ t)) by (apply cfree_app; split; [apply cfreeb_spec; reflexivity | assumption]).
+      rewrite E2 in Hc. apply cfree_app in Hc. tauto. }
+    rewrite E1. replace (length A + 1)%nat with (length (A ++ [1])) by (rewrite app_length; cbn; lia).
+    rewrite skipn_exact. unfold SOHs. rewrite (find_sub_single_none 1 l Hl). reflexivity. }
+  rewrite Hnext, Hcut, firstn_all, HnP. reflexivity.
+Qed.
+
+(* no marker in the buffer: everything but a trailing proper prefix of the marker is dropped *)
+Lemma decode_no_marker : forall G bs raw, find_sub MARK raw = None ->
+  decode G bs raw true = Ok (None, (zlen raw - Z.of_nat (marker_tail raw))%Z, None).
+Proof. intros G bs raw H. rewrite decode_eq, H. reflexivity. Qed.
 
 (* the field list of a frame made of SOH-free fields, each followed by SOH *)
 Lemma fields_of_flat : forall fs, Forall (cfree 1) fs -> fields_of (flat fs) = fs.
@@ -121,23 +216,23 @@ Lemma zlen_app : forall {A} (a b : list A), zlen (a ++ b) = (zlen a + zlen b)%Z.
 Proof. intros. unfold zlen. rewrite app_length. lia. Qed.
 
 (* the decision on a complete, consistent field list *)
-Lemma decode_fields_ok : forall G bs silent rawlen idx encoded t0 f1v f2 rest bl st,
-  cfree 61 t0 -> py_int f1v = Some bl ->
-  (zlen (field t0 bs) + zlen (field T9 f1v) + 9 + bl <= rawlen)%Z ->
+Lemma decode_fields_ok : forall G bs silent rawlen idx hn flen encoded t0 f1v f2 rest bl st,
+  cfree 61 t0 -> py_int f1v = Some bl -> (0 <= bl)%Z ->
+  (zlen (field t0 bs) + zlen (field T9 f1v) + 9 + bl <= rawlen - Z.of_nat idx)%Z ->
   let fields := field t0 bs :: field T9 f1v :: f2 :: rest in
   fields_loop G ((sum_codes (join SOHs (removelast fields)) + 1) mod 256) (mkD [] [] UNKNOWN false) fields = FCont st ->
   d_ck st = true ->
-  decode_fields G bs silent rawlen idx encoded fields =
-  Ok (Some (mkMsg (d_type st) (d_root st)),
-      (Z.of_nat idx + (zlen (field t0 bs) + zlen (field T9 f1v) + 9 + bl))%Z, Some encoded).
+  decode_fields G bs silent rawlen idx hn flen encoded fields =
+  Ok (Some (mkMsg (d_type st) (d_root st)), flen, Some encoded).
 Proof.
-  intros G bs silent rawlen idx encoded t0 f1v f2 rest bl st Ht0 Hbl Hlen fields Hloop Hck.
+  intros G bs silent rawlen idx hn flen encoded t0 f1v f2 rest bl st Ht0 Hbl Hpos Hlen fields Hloop Hck.
   unfold decode_fields. subst fields. cbv zeta in Hloop.
   unfold field at 1. rewrite (split1_field 61 t0 bs Ht0). rewrite str_eqb_refl. cbn [negb].
   unfold field at 1, T9. rewrite (split1_field 61 [57] f1v) by (intros [E|[]]; discriminate).
   fold T9. rewrite str_eqb_refl. cbn [negb]. rewrite Hbl.
   fold (field t0 bs). fold (field T9 f1v).
-  destruct (rawlen <? _)%Z eqn:E; [lia|].
+  destruct (bl <? 0)%Z eqn:E0; [lia|].
+  destruct (rawlen - Z.of_nat idx <? _)%Z eqn:E; [lia|].
   rewrite Hloop, Hck. reflexivity.
 Qed.
 
@@ -367,10 +462,7 @@ Proof. reflexivity. Qed.
 
 Definition pre (ck_expect : N) (st : dst) (tag val : str) : result dst :=
   if str_eqb tag T10 then
-    match py_int val with
-    | None => Exc EValue
-    | Some z => Ok (mkD (d_root st) (d_stack st) (d_type st) (Z.eqb (Z.of_N ck_expect) z))
-    end
+    Ok (mkD (d_root st) (d_stack st) (d_type st) (three_digits val && Z.eqb (Z.of_N ck_expect) (digits_value val)))
   else if str_eqb tag T35 then Ok (mkD (d_root st) (d_stack st) val (d_ck st))
   else Ok st.
 
@@ -401,7 +493,7 @@ Definition post (G : group_table) (tag val : str) (st : dst) : fstep :=
           match pop_while tag (d_stack st) None (d_root st) with
           | Exc e => FExc e
           | Ok ([], root) =>
-              if ct_mem tag root then FExc EAttribute
+              if ct_mem tag root then FCont (mkD (ct_put tag VErr root) [] (d_type st) (d_ck st))
               else match ct_set tag val root with
                    | Exc e => FExc e
                    | Ok r => FCont (mkD r [] (d_type st) (d_ck st))
@@ -436,17 +528,24 @@ Lemma field_step_eq : forall G ck st m,
   match split1 61 m with
   | (_, None) => FReturnBad
   | (tag, Some val) =>
-      match pre ck st tag val with
-      | Exc e => FExc e
-      | Ok st => post G tag val st
+      match py_int tag with
+      | None => FReturnBad
+      | Some _ =>
+          match pre ck st tag val with
+          | Exc e => FExc e
+          | Ok st => post G tag val st
+          end
       end
   end.
 Proof. reflexivity. Qed.
 
-Lemma field_step_field : forall G ck st tag val, cfree 61 tag ->
+Lemma field_step_field : forall G ck st tag val, cfree 61 tag -> has_int tag = true ->
   field_step G ck st (field tag val) =
   match pre ck st tag val with Exc e => FExc e | Ok st => post G tag val st end.
-Proof. intros. rewrite field_step_eq. unfold field. rewrite split1_field by assumption. reflexivity. Qed.
+Proof.
+  intros G ck st tag val H Hi. rewrite field_step_eq. unfold field. rewrite split1_field by assumption.
+  unfold has_int in Hi. destruct (py_int tag); [reflexivity | discriminate].
+Qed.
 
 Lemma pre_other : forall ck st tag val, str_eqb tag T10 = false -> str_eqb tag T35 = false ->
   pre ck st tag val = Ok st.
@@ -787,7 +886,7 @@ Lemma step_plain : forall ck t s D fr ty ckf b,
 Proof.
   intros ck t s D fr ty ckf b Hl [Htag [H10 [H35 Hacc]]] Hn Hc Hg.
   destruct (tag_ok_spec _ Htag) as [_ [Heq Hint]].
-  rewrite (field_step_field G ck _ t s Heq), (pre_other ck _ t s H10 H35).
+  rewrite (field_step_field G ck _ t s Heq Hint), (pre_other ck _ t s H10 H35).
   apply post_plain; assumption.
 Qed.
 
@@ -882,7 +981,7 @@ Proof.
     (* the head field closes the previous item *)
     assert (Step1 : field_step G ck (mkst D (push (mkCtx t ms cur) (set_top fr (b ++ pend t done))) ty ckf) (field t2 s2)
                     = FCont (mkst [] (push (mkCtx t ms [(t2, VStr s2)]) (set_top fr (b ++ pend t (done ++ [prev])))) ty ckf)).
-    { rewrite (field_step_field G ck _ t2 s2 Heq2).
+    { rewrite (field_step_field G ck _ t2 s2 Heq2 Hint2).
       rewrite (pre_other ck _ t2 s2 (str_eqb_of_mem _ _ ms Hmem2 N10) (str_eqb_of_mem _ _ ms Hmem2 N35)).
       rewrite (post_next_item G t2 s2 D t ms cur (set_top fr (b ++ pend t done)) ty ckf prev done b); try assumption.
       - rewrite set_top_set_top. reflexivity.
@@ -937,7 +1036,7 @@ Proof.
     (* the count field opens the group *)
     assert (Step0 : field_step G ck (mkst D fr ty ckf) (field t (n_to_dec (N.of_nat (length (it1 :: its)))))
                     = FCont (mkst [] (push (mkCtx t ms []) (set_top fr b)) ty ckf)).
-    { rewrite (field_step_field G ck _ t _ Heq), (pre_other ck _ t _ H10 H35).
+    { rewrite (field_step_field G ck _ t _ Heq Hint), (pre_other ck _ t _ H10 H35).
       apply post_group; assumption. }
     (* first item *)
     assert (Hgood : Forall (fun tv => wf_value G (fst tv) (snd tv) = true /\ tag_good (push (mkCtx t ms []) (set_top fr b)) (fst tv)) it1)
@@ -1064,7 +1163,7 @@ Lemma step_root : forall ck t s root ty ckf,
 Proof.
   intros ck t s root ty ckf Hin H10 Htag Hg.
   destruct (tag_ok_spec _ Htag) as [_ [Heq Hint]].
-  rewrite (field_step_field G ck _ t s Heq). unfold pre. rewrite H10.
+  rewrite (field_step_field G ck _ t s Heq Hint). unfold pre. rewrite H10.
   destruct (str_eqb t T35); cbn [d_root d_stack d_type d_ck];
     apply (post_plain G t s [] ([], root) _ ckf root (framing_not_key t Hin) Hint (Forall_nil _) I (collapse_nil _) Hg).
 Qed.
@@ -1089,13 +1188,14 @@ Proof.
 Qed.
 
 Lemma trailer_step : forall ck D b2 ty ckf full val z,
-  collapse None D b2 = Ok full -> nonmem T10 D -> ct_get T10 full = None -> py_int val = Some z ->
+  collapse None D b2 = Ok full -> nonmem T10 D -> ct_get T10 full = None ->
+  three_digits val = true -> digits_value val = z ->
   field_step G ck (mkst D ([], b2) ty ckf) (field T10 val)
   = FCont (mkD (full ++ [(T10, VStr val)]) [] ty (Z.eqb (Z.of_N ck) z)).
 Proof.
-  intros ck D b2 ty ckf full val z Hc Hn Hg Hz.
-  rewrite (field_step_field G ck _ T10 val) by (apply cfreeb_spec; reflexivity).
-  unfold pre. rewrite str_eqb_refl, Hz.
+  intros ck D b2 ty ckf full val z Hc Hn Hg H3 Hz.
+  rewrite (field_step_field G ck _ T10 val) by ((apply cfreeb_spec; reflexivity) || reflexivity).
+  unfold pre. rewrite str_eqb_refl, H3, Hz. cbn [andb].
   change (mkD (d_root (mkst D ([], b2) ty ckf)) (d_stack (mkst D ([], b2) ty ckf)) (d_type (mkst D ([], b2) ty ckf))
               (Z.eqb (Z.of_N ck) z)) with (mkst D ([], b2) ty (Z.eqb (Z.of_N ck) z)).
   apply (post_plain G T10 val D ([], b2) ty _ full); try assumption.
@@ -1116,8 +1216,8 @@ Definition frame_ok (bs F : str) (dm : message) : Prop :=
   exists f1v f2 rest bl st,
     let fields := field T8 bs :: field T9 f1v :: f2 :: rest in
     F = flat fields /\ Forall (cfree 1) fields
-    /\ prefixb MARK F = true /\ find_sub MARK (skipn 5 F) = None
-    /\ py_int f1v = Some bl /\ (zlen (field T8 bs) + zlen (field T9 f1v) + 9 + bl = zlen F)%Z
+    /\ frame_shape F
+    /\ py_int f1v = Some bl /\ (0 <= bl)%Z /\ (zlen (field T8 bs) + zlen (field T9 f1v) + 9 + bl = zlen F)%Z
     /\ fields_loop G ((sum_codes (join SOHs (removelast fields)) + 1) mod 256) (mkD [] [] UNKNOWN false) fields = FCont st
     /\ d_ck st = true /\ dm = mkMsg (d_type st) (d_root st).
 
@@ -1132,25 +1232,20 @@ Qed.
 Lemma prefixb_length : forall p s, prefixb p s = true -> (length p <= length s)%nat.
 Proof. intros p s H. apply prefixb_spec in H as [r E]. subst. rewrite app_length. lia. Qed.
 
-(* complete-prefix lemma: a good frame followed by nothing, or by bytes that start with a whole
-   frame-start marker, decodes to its message; exactly the frame is consumed *)
-Lemma frame_ok_decode : forall bs F dm P silent,
-  frame_ok bs F dm -> P = [] \/ prefixb MARK P = true ->
-  decode G bs (F ++ P) silent = Ok (Some dm, zlen F, Some F).
+(* complete-prefix lemma: marker-free junk, a good frame, then ANY bytes (nothing, garbage, the first bytes
+   of the next frame): the frame is decoded to its message; exactly junk + frame are consumed *)
+Lemma frame_ok_decode : forall bs J F dm R silent,
+  find_sub MARK J = None -> frame_ok bs F dm ->
+  decode G bs (J ++ F ++ R) silent = Ok (Some dm, (zlen J + zlen F)%Z, Some F).
 Proof.
-  intros bs F dm P silent [f1v [f2 [rest [bl [st H]]]]] HP. cbv zeta in H.
-  destruct H as [HF [Hsoh [Hmark [Hnom [Hbl [Hlen [Hloop [Hck Hdm]]]]]]]].
-  destruct (flat_last (field T8 bs :: field T9 f1v :: f2 :: rest) ltac:(discriminate)) as [F' EF'].
-  assert (EF : F = F' ++ [1]) by congruence.
-  assert (H5 : (5 <= length F')%nat).
-  { apply prefixb_length in Hmark. rewrite EF, app_length in Hmark. cbn in Hmark. lia. }
-  rewrite EF in Hmark, Hnom. rewrite EF at 1.
-  rewrite (decode_cut G bs F' P silent Hmark H5 Hnom HP).
-  rewrite <- EF. rewrite HF at 3. rewrite (fields_of_flat _ Hsoh).
-  rewrite (decode_fields_ok G bs silent _ 0 F T8 f1v f2 rest bl st); try assumption.
-  - rewrite Hlen, Hdm. reflexivity.
+  intros bs J F dm R silent HJ [f1v [f2 [rest [bl [st H]]]]]. cbv zeta in H.
+  destruct H as [HF [Hsoh [Hshape [Hbl [Hpos [Hlen [Hloop [Hck Hdm]]]]]]]].
+  destruct (decode_frame_gen G bs J F R silent HJ Hshape) as [hn Hd]. rewrite Hd.
+  rewrite HF at 4. rewrite (fields_of_flat _ Hsoh).
+  rewrite (decode_fields_ok G bs silent _ (length J) hn _ F T8 f1v f2 rest bl st); try assumption.
+  - rewrite Hdm. reflexivity.
   - apply cfreeb_spec. reflexivity.
-  - rewrite Hlen, zlen_app. unfold zlen. lia.
+  - rewrite Hlen, !zlen_app. unfold zlen. lia.
 Qed.
 End Frames.
 
@@ -1197,9 +1292,78 @@ Proof. intros. apply removelast_last. Qed.
 Lemma flat_length : forall f fs, length (flat (f :: fs)) = (length f + 1 + length (flat fs))%nat.
 Proof. intros. rewrite flat_cons, app_length. cbn [length]. lia. Qed.
 
+(* ---------- the first "<SOH>10=" of an encoder frame is its CheckSum field ---------- *)
+
+Lemma fmt03_three : forall c, c < 256 -> three_digits (fmt03 c) = true /\ digits_value (fmt03 c) = Z.of_N c.
+Proof.
+  intros c Hc.
+  assert (H : below256 (fun c => three_digits (fmt03 c) && Z.eqb (digits_value (fmt03 c)) (Z.of_N c)) = true)
+    by (vm_compute; reflexivity).
+  pose proof (below256_spec _ H c Hc) as Hb. cbv beta in Hb. apply andb_true_iff in Hb as [A B].
+  split; [assumption | apply Z.eqb_eq; assumption].
+Qed.
+
+Definition no_ck (f : str) : Prop := forall X, prefixb CK3 (f ++ X) = false.
+
+Lemma field_no_ck : forall t v, cfree 61 t -> str_eqb t T10 = false -> no_ck (field t v).
+Proof.
+  intros t v Heq Hne X. unfold field, CK3, T10.
+  destruct t as [|a [|b [|c t']]]; cbn [app prefixb].
+  - reflexivity.
+  - destruct (49 =? a); reflexivity.
+  - destruct (N.eqb_spec 49 a) as [Ea|Ea]; [|reflexivity]. destruct (N.eqb_spec 48 b) as [Eb|Eb]; [|reflexivity].
+    subst a b. rewrite str_eqb_refl in Hne. discriminate.
+  - destruct (49 =? a); [|reflexivity]. destruct (48 =? b); [|reflexivity]. cbn [andb].
+    apply cfree_cons in Heq as [_ Heq]. apply cfree_cons in Heq as [_ Heq]. apply cfree_cons in Heq as [Hc _].
+    destruct (N.eqb_spec 61 c) as [E|E]; [subst c; contradiction | reflexivity].
+Qed.
+
+Lemma find_cksep_flat : forall fs T, fs <> [] -> Forall (cfree 1) fs -> Forall no_ck (tl fs) ->
+  prefixb CK3 T = true -> find_sub CKSEP (flat fs ++ T) = Some (length (flat fs) - 1)%nat.
+Proof.
+  induction fs as [|f fs IH]; intros T Hne Hsoh Hck HT; [contradiction|].
+  inversion Hsoh as [|? ? Hf Hsoh']; subst. rewrite flat_cons, <- app_assoc. cbn [app].
+  change CKSEP with (1 :: CK3). rewrite (find_sub_first_char 1 CK3 f _ Hf).
+  destruct fs as [|g fs'].
+  - cbn [flat map concat app]. rewrite HT. f_equal. rewrite app_length. cbn [length]. lia.
+  - cbn [tl] in Hck. inversion Hck as [|? ? Hg Hck']; subst.
+    rewrite flat_cons at 1. rewrite <- app_assoc. rewrite (Hg _).
+    change (1 :: CK3) with CKSEP. rewrite (IH T ltac:(discriminate) Hsoh' Hck' HT). cbn [option_map]. f_equal.
+    rewrite app_length. cbn [length]. pose proof (flat_length_pos g fs'). lia.
+Qed.
+
 Section Enc.
 Variable G : group_table.
 Hypothesis HG : wf_table G = true.
+
+Lemma vfields_no_ck : forall v t, cfree 61 t -> str_eqb t T10 = false -> wf_value G t v = true ->
+  Forall no_ck (vfields t v).
+Proof.
+  induction v as [s| |items IH] using value_ind2; intros t Heq Hne Hwf.
+  - constructor; [apply field_no_ck; assumption | constructor].
+  - discriminate.
+  - rewrite vfields_grp. destruct (wf_value_grp _ _ _ Hwf) as [ms [Hl [_ [Hitems _]]]].
+    destruct (members_not_special G HG t ms Hl) as [N10 _].
+    constructor; [apply field_no_ck; assumption|].
+    apply Forall_concat. apply Forall_map.
+    clear Hwf. induction items as [|it items IHitems]; [constructor|].
+    inversion IH as [|? ? IHit IHrest]; subst. inversion Hitems as [|? ? [Hent _] Hrest]; subst.
+    constructor; [|apply IHitems; assumption].
+    unfold cfields. apply Forall_concat. apply Forall_map.
+    clear - IHit Hent N10. induction it as [|[t' v'] it IHi]; [constructor|].
+    inversion IHit; subst. inversion Hent as [|? ? [Htag [Hmem Hw]] ?]; subst.
+    constructor; [|apply IHi; assumption]. cbn [fst snd] in *.
+    apply H1; [apply (tag_ok_spec _ Htag) | apply (str_eqb_of_mem _ _ ms Hmem N10) | assumption].
+Qed.
+
+Lemma cfields_no_ck : forall m, wf_msg G m = true -> Forall no_ck (cfields (body_of m)).
+Proof.
+  intros m Hwf. destruct (wf_msg_spec G m Hwf) as [_ [Hent _]].
+  unfold cfields. apply Forall_concat. apply Forall_map.
+  rewrite Forall_forall in *. intros tv I. destruct (Hent tv I) as [A [B C]].
+  destruct (not_hdr_key _ B (body_of_not_skip m tv I)) as [_ [E10 _]].
+  apply vfields_no_ck; [apply (tag_ok_spec _ A) | assumption | assumption].
+Qed.
 
 Lemma cfields_soh_free : forall m, wf_msg G m = true -> Forall (cfree 1) (cfields (body_of m)).
 Proof.
@@ -1267,12 +1431,28 @@ Proof.
     - apply n_to_dec_cfree. reflexivity.
     - apply cfields_soh_free. assumption. }
   split.
-  { rewrite HF, Efields. unfold L. rewrite <- app_comm_cons, flat_cons.
-    apply prefixb_spec in Hbs1 as [r Er]. rewrite Er. unfold field, T8, FIXDOT. cbn [app].
-    reflexivity. }
-  split.
-  { unfold no_marker in Hnom. destruct (find_sub MARK (skipn 5 frame)); [discriminate | reflexivity]. }
+  { split; [|split].
+    - rewrite HF, Efields. unfold L. rewrite <- app_comm_cons, flat_cons.
+      apply prefixb_spec in Hbs1 as [r Er]. rewrite Er. unfold field, T8, FIXDOT. cbn [app].
+      reflexivity.
+    - unfold no_marker in Hnom. destruct (find_sub MARK (skipn 5 frame)); [discriminate | reflexivity].
+    - destruct (flat_last L ltac:(discriminate)) as [A EA].
+      assert (EFr : frame = flat L ++ (CK3 ++ fmt03 ck) ++ [1]).
+      { rewrite HF, Efields, flat_app. cbn [flat map concat]. rewrite app_nil_r. unfold field, CK3.
+        rewrite <- !app_assoc. reflexivity. }
+      exists A, (fmt03 ck). split; [|split; [exact Hsoh10|]].
+      + rewrite EFr, EA. unfold CKSEP, CK3. rewrite <- !app_assoc. reflexivity.
+      + rewrite EFr. rewrite (find_cksep_flat L ((CK3 ++ fmt03 ck) ++ [1])).
+        * f_equal. rewrite EA, app_length. cbn [length]. lia.
+        * discriminate.
+        * unfold L. repeat (constructor; [apply field_soh_free; try assumption; try (apply cfreeb_spec; reflexivity)|]).
+          -- apply n_to_dec_cfree. reflexivity.
+          -- apply cfields_soh_free. assumption.
+        * unfold L. cbn [tl]. repeat (constructor; [apply field_no_ck; [apply cfreeb_spec; reflexivity | reflexivity]|]).
+          apply cfields_no_ck. assumption.
+        * rewrite <- app_assoc. apply prefixb_app. }
   split; [exact Hpy9|].
+  split; [lia|].
   split.
   { unfold zlen. rewrite ElenF. lia. }
   split.
@@ -1284,7 +1464,8 @@ Proof.
     destruct (body_loop G HG m (hdr_root bs (n_to_dec blen) (msg_type m) (sender sess) (target sess) seq time)
                 ck (msg_type m) false Hwf eq_refl) as [D' [b2 [Lb [Cb Nb]]]].
     fold body in Lb, Cb. rewrite Lb. rewrite fields_loop_one.
-    rewrite (trailer_step G HG ck D' b2 (msg_type m) false _ (fmt03 ck) (Z.of_N ck) Cb Nb); [|  | exact Hpy10].
+    destruct (fmt03_three ck Hck256) as [H3d Hdv].
+    rewrite (trailer_step G HG ck D' b2 (msg_type m) false _ (fmt03 ck) (Z.of_N ck) Cb Nb); [|  | exact H3d | exact Hdv].
     - rewrite Z.eqb_refl. reflexivity.
     - apply ct_get_none. rewrite map_app. apply mem_str_false. intro I. apply in_app_iff in I as [I|I].
       + cbn in I. repeat (destruct I as [I|I]; [discriminate|]). destruct I.
@@ -1317,8 +1498,8 @@ Proof.
   exists seq. split; [exact Hseq|]. split.
   - intro silent.
     pose proof (encode_frame_ok G HG bs m sess time raw frame sess' seq Hbs Hsess Htime Hwf Hnom Hsmall Henc Hseq) as Hok.
-    pose proof (frame_ok_decode G bs frame _ [] silent Hok (or_introl eq_refl)) as Hd.
-    rewrite app_nil_r in Hd. exact Hd.
+    pose proof (frame_ok_decode G bs [] frame _ [] silent eq_refl Hok) as Hd.
+    cbn [app] in Hd. rewrite app_nil_r in Hd. exact Hd.
   - exact (select_seq_spec _ _ _ _ _ Hseq).
 Qed.
 
@@ -1460,7 +1641,8 @@ Lemma marker_refuted : forall m, m = ex_marker_tag \/ m = ex_marker_value ->
   wf_msg GenGroups.table m = true /\ flat_msg m = true /\ small_frame (ex_frame m)
   /\ no_marker (ex_frame m) = false
   /\ (exists sess', encode beginstring m ex_sess ex_time false = Ok (ex_frame m, sess'))
-  /\ decode GenGroups.table beginstring (ex_frame m) true = Ok (None, zlen (ex_frame m), None).
+  /\ (exists n, decode GenGroups.table beginstring (ex_frame m) true = Ok (None, n, None))
+  /\ snd (fst (reader_run GenGroups.table beginstring [] [ex_frame m])) = [].
 Proof.
   intros m [E|E]; subst m; repeat split; try (vm_compute; reflexivity);
     eexists; vm_compute; reflexivity.
